@@ -16,9 +16,9 @@ use crate::ring_like::digest;
 #[cfg(feature = "pem")]
 use crate::ENCODE_CONFIG;
 use crate::{
-	oid, write_distinguished_name, write_dt_utc_or_generalized,
-	write_x509_authority_key_identifier, write_x509_extension, DistinguishedName, Error, Issuer,
-	KeyIdMethod, KeyPair, KeyUsagePurpose, SanType, SerialNumber,
+	check_ia5_string, check_oid, check_time, oid, write_distinguished_name,
+	write_dt_utc_or_generalized, write_x509_authority_key_identifier, write_x509_extension,
+	DistinguishedName, Error, Issuer, KeyIdMethod, KeyPair, KeyUsagePurpose, SanType, SerialNumber,
 };
 
 /// An issued certificate together with the parameters used to generate it.
@@ -435,6 +435,42 @@ impl CertificateParams {
 		Ok(result)
 	}
 
+	/// Checks everything the DER writer would otherwise panic on: text in `IA5String`
+	/// positions that is typed as a plain `String`, object identifiers and dates that have
+	/// no encoding.
+	fn check_encodable(&self) -> Result<(), Error> {
+		check_time(self.not_before)?;
+		check_time(self.not_after)?;
+		self.distinguished_name.check_encodable()?;
+		for san in &self.subject_alt_names {
+			if let SanType::OtherName((oid, _)) = san {
+				check_oid(oid)?;
+			}
+		}
+		for eku in &self.extended_key_usages {
+			check_oid(eku.oid())?;
+		}
+		if let Some(name_constraints) = &self.name_constraints {
+			let subtrees = name_constraints.permitted_subtrees.iter();
+			for subtree in subtrees.chain(name_constraints.excluded_subtrees.iter()) {
+				match subtree {
+					GeneralSubtree::Rfc822Name(name) | GeneralSubtree::DnsName(name) => {
+						check_ia5_string(name)?
+					},
+					GeneralSubtree::DirectoryName(name) => name.check_encodable()?,
+					GeneralSubtree::IpAddress(_) => {},
+				}
+			}
+		}
+		for distribution_point in &self.crl_distribution_points {
+			distribution_point.check_encodable()?;
+		}
+		for ext in &self.custom_extensions {
+			check_oid(&ext.oid)?;
+		}
+		Ok(())
+	}
+
 	/// Write a CSR extension request attribute as defined in [RFC 2985].
 	///
 	/// [RFC 2985]: <https://datatracker.ietf.org/doc/html/rfc2985>
@@ -606,6 +642,10 @@ impl CertificateParams {
 		{
 			return Err(Error::UnsupportedInCsr);
 		}
+		self.check_encodable()?;
+		for Attribute { oid, .. } in &attrs {
+			check_oid(oid)?;
+		}
 
 		// Whether or not to write an extension request attribute
 		let write_extension_request = !key_usages.is_empty()
@@ -651,6 +691,8 @@ impl CertificateParams {
 		pub_key: &K,
 		issuer: Issuer<'_>,
 	) -> Result<CertificateDer<'static>, Error> {
+		self.check_encodable()?;
+		issuer.distinguished_name.check_encodable()?;
 		let der = issuer.key_pair.sign_der(|writer| {
 			let pub_key_spki =
 				yasna::construct_der(|writer| serialize_public_key_der(pub_key, writer));
@@ -881,11 +923,11 @@ fn write_general_subtrees(writer: DERWriter, tag: u64, general_subtrees: &[Gener
 						GeneralSubtree::DirectoryName(name) => writer
 							.next()
 							.write_tagged(tag, |writer| write_distinguished_name(writer, name)),
-						GeneralSubtree::IpAddress(subnet) => writer
-							.next()
-							.write_tagged_implicit(tag, |writer| {
+						GeneralSubtree::IpAddress(subnet) => {
+							writer.next().write_tagged_implicit(tag, |writer| {
 								writer.write_bytes(&subnet.to_bytes())
-							}),
+							})
+						},
 					}
 					// minimum must be 0 (the default) and maximum must be absent
 				});
